@@ -173,6 +173,12 @@ fn total_needed_pages(value_size: usize) -> usize {
     needed_pages_raw_value + required_additional_pages
 }
 
+/// Verification hook: the page count computed for an overflow value of the given size.
+#[cfg(feature = "verif-hooks")]
+pub(crate) fn verif_total_needed_pages(value_size: usize) -> usize {
+    total_needed_pages(value_size)
+}
+
 fn needed_pages(size: usize) -> usize {
     (size + BODY_SIZE - 1) / BODY_SIZE
 }
